@@ -25,6 +25,9 @@ def obligations(tier):
             obs.append(Ob(f"C02.drv/names={nst}/item1={i}", "drv", "c_items", {"VF_I1": i, "VF_NAMES": ns}, t, FN_DRV,
                           f"columns named {nst} (first optionally inline PRIMARY KEY, second optionally inline CONSTRAINT g REFERENCES r (z), third optionally inline UNIQUE - "
                           f"all symbolic) + table-level item #{i} + a second item, any other of the 18 (symbolic)"))
+    for ns in ((1, 4) if tier == "quick" else range(5)):
+        obs.append(Ob(f"C02.drv/inline-composite-pk/names={NAMESETS[ns]}", "drv", "c_items", {"VF_I1": 4, "VF_NAMES": ns, "VF_PK2": 1}, t, FN_DRV,
+                      "inline PRIMARY KEY on the first and on the third column (symbolic): the key lists them in declaration order (not sorted, not reversed); + UNIQUE (b) + any second item"))
     for i in ([18, 5] if tier == "quick" else range(NI)):
         obs.append(Ob(f"C02.drv/normalize_names/item1={i}", "drv", "c_items", {"VF_I1": i, "VF_NAMES": 0, "VF_NORM": 1}, t, FN_DRV,
                       f"normalize_names=True: item #{i} + any second item; a constraint named `key` keeps its name without the delimiters"))
